@@ -56,7 +56,7 @@ def _plan(draw, lo, hi, depth, ctr):
 
 @st.composite
 def _case(draw):
-    mode = draw(st.sampled_from(['split', 'split', 'split', 'missing', 'path', 'keyinc']))
+    mode = draw(st.sampled_from(['split', 'split', 'split', 'missing', 'path', 'keyinc', 'keyinc2']))
     docs = draw(S.tagged_stages(min_stages=2, max_stages=5, new=False, density=5, max_leaves=6, keys=S.MERGE_KEYS_NONEG, neg=False))
     ctr = [0]
     case = {'mode': mode, 'docs': docs, 'abs_master': draw(st.booleans())}
@@ -65,6 +65,23 @@ def _case(draw):
         case['top'] = draw(st.sampled_from(['file', 'file', 'sources']))
         if mode == 'missing':
             case['drop'] = draw(st.lists(st.integers(0, 30), min_size=1, max_size=3))
+    elif mode == 'keyinc2':
+        # an earlier stage already holds content under the key; the included file(s) - one document each - use !extend / !append / plain
+        # lists at the same paths: 'key: !include [..]' must equal the files' own merged content placed under the key
+        case['key'] = draw(st.sampled_from(['k', 'a']))
+        case['dir'] = draw(st.sampled_from(DIRS))
+        lists = ['lst', 'other']
+        case['pre'] = {nm: [draw(st.integers(0, 9)) for _ in range(draw(st.integers(0, 3)))] for nm in lists if draw(st.booleans())}
+        files = []
+        for _ in range(draw(st.sampled_from([1, 1, 2]))):
+            entries = []
+            for nm in lists:
+                kind = draw(st.sampled_from(['none', 'plain', 'extend', 'extend', 'append']))
+                if kind != 'none':
+                    entries.append([nm, kind, [draw(st.integers(10, 19)) for _ in range(draw(st.integers(0, 2)))]])
+            entries.append(['s', 'scalar', draw(st.integers(0, 9))])
+            files.append(entries)
+        case['files'] = files
     elif mode == 'keyinc':
         case['key'] = draw(st.sampled_from(['k', 'a', 'inc']))
         case['dir'] = draw(st.sampled_from(DIRS))
@@ -248,6 +265,45 @@ def run_case(case):
                 if any(p in drop for node in lay.inc_nodes[1:] for p, _, _ in node) and lay.nested_files:
                     nontrivial = True
                     labels.add('missing-below-nested')
+        elif mode == 'keyinc2':
+            key, d = case['key'], case['dir']
+
+            def file_doc(entries):
+                items = []
+                for nm, kind, val in entries:
+                    if kind == 'scalar':
+                        items.append((nm, tdoc.sc(val)))
+                    else:
+                        n = tdoc.sq([tdoc.sc(v) for v in val], flow=True)
+                        if kind in ('extend', 'append'):
+                            n['tag'] = '!' + kind
+                        items.append((nm, n))
+                return tdoc.render(tdoc.mp(items))
+            ftexts = [file_doc(e) for e in case['files']]
+            names = []
+            for i, t in enumerate(ftexts):
+                rel = os.path.join(d, f'q{i}.yaml') if d else f'q{i}.yaml'
+                lay.write(os.path.join(lay.tree, rel), t)
+                names.append(rel)
+            pre_text = tdoc.render(tdoc.from_plain({key: case['pre'], 'zz': 1}))
+            inc = names[0] if len(names) == 1 and len(case['files'][0]) % 2 else '[' + ', '.join(names) + ']'
+            body = f'---\n{key}: !include {inc}\n'
+            master = os.path.join(lay.tree, 'master.yaml')
+            lay.write(master, body)
+            inner_st, inner = _build_in(lay.cwd, lambda: Config.build(*ftexts, raw_yaml=True))
+            layout_txt = f'\nearlier stage:\n{pre_text}\nmaster file:\n{body}\nincluded files:\n' + '\n'.join(ftexts)
+            status, got = _build_in(lay.cwd, lambda: Config.build(pre_text, master, raw_yaml=[True, False]))
+            if inner_st == 'ok':
+                placed = tdoc.render(tdoc.from_plain({key: O.to_builtin(inner)}))
+                want_st, want = _build_in(lay.cwd, lambda: Config.build(pre_text, placed, raw_yaml=True))
+                if want_st == 'ok':
+                    if status != 'ok' or O.canon(O.to_builtin(got)) != O.canon(O.to_builtin(want)):
+                        raise Violation(f'C06: {key}: !include .. gives {got!r}; placing the merged content of the files under the key gives '
+                                        f'{O.to_builtin(want)!r}{layout_txt}')
+            elif status == 'ok':
+                raise Violation(f'C06: the included files do not build on their own ({type(inner).__name__}) but the including document does: {got!r}{layout_txt}')
+            labels.add('files=%d' % len(ftexts))
+            nontrivial = any(k in ('extend', 'append') for e in case['files'] for _, k, _ in e) and bool(case['pre'])
         elif mode == 'keyinc':
             key, d = case['key'], case['dir']
             names = []
@@ -330,7 +386,7 @@ def run_case(case):
 
 def sample_repr(case):
     out = {'mode': case['mode'], 'docs': [tdoc.render(d) for d in case['docs']]}
-    for k in ('plan', 'top', 'paths', 'chain', 'key'):
+    for k in ('plan', 'top', 'paths', 'chain', 'key', 'files', 'pre'):
         if k in case:
             out[k] = case[k]
     return out
